@@ -25,3 +25,12 @@ claimed["C13"] = (
     "WebTransport: declared frame length vs. limit for arbitrary headers (see C11).",
     "Outside the claim: real HTTP/WebSocket I/O, gzip expansion, JSONP bodies; transports whose limit kernel is not listed in the evidence harness list.",
     "5 (C13)")
+
+claimed["C18"] = (
+    "Bounded symbolic verification of the handler stores against a reference model from an ARBITRARY store state: the generic handlerStore is instantiated at int so that handler identity "
+    "is a symbolic value (every aliasing pattern - duplicates, absent handlers, the same handler named twice - is one symbolic state); lists of up to 3+2 (quick) / 4+3 (thorough) handlers, "
+    "off() with 0..2/3 arguments; asserts multiset equality with filter-out-all-named, no panic, mutex released. Because the pre-state is arbitrary one step covers all call sequences. "
+    "eventHandlerStore.off likewise over two events with handler identity = code pointer (reflect model). The public On/Once/Off wrappers of Manager, Server, Namespace, serverSocket, "
+    "clientSocket are executed concretely through the same executor (Off(f) removes f and only f; Once fires once).",
+    "Outside the claim: distinct closures sharing one code pointer (reflect cannot tell them apart - the repo's own notion of identity); the concurrent at-most-once guarantee unless C18_once_race is listed in the evidence; lists longer than the bounds.",
+    "5 (C18)")
